@@ -80,6 +80,14 @@ func memoryGuard(o *Options) {
 		}
 		func() {
 			defer func() { _ = recover() }()
+			hangMu.Lock()
+			hs := append([]string(nil), hangSrc...)
+			hangMu.Unlock()
+			if len(hs) > 0 && hs[0] != "" {
+				res.AddViolation(&Violation{Kind: "failing-input", Class: "render:HANG",
+					What:   fmt.Sprintf("rendering %q did not return within its time limit and went on allocating (output without bound)", hs[0]),
+					Replay: map[string]any{"template": hs[0], "other_hanging_templates": hs[1:]}})
+			}
 			res.AddViolation(&Violation{Kind: "no-failing-input-found", Class: "engine:runaway",
 				What:   fmt.Sprintf("%d calls into the engine did not return within their time limit and the process grew beyond 6 GiB while they ran on (output without bound): the run was ended early", atomic.LoadInt64(&hangCount)),
 				Replay: map[string]any{"correspondence": "run of " + o.Prop + " ended early: abandoned engine calls kept allocating", "hangs": atomic.LoadInt64(&hangCount)}})
